@@ -164,7 +164,7 @@ func c21Kicks(c c21Case, it c21Item) bool {
 
 // c21Class names what the proxy does with the acknowledgements an item carries;
 // used only to give arithmetic failures a stable root-cause key.
-func c21Class(it c21Item) string {
+func c21Class(it c21Item, protocol int) string {
 	switch it.Kind {
 	case "chat":
 		return "chat"
@@ -177,6 +177,11 @@ func c21Class(it c21Item) string {
 	case "unknown", "forward":
 		return "forwarded-command"
 	case "rewrite", "rewrite-forward":
+		if protocol >= 766 {
+			// 1.20.5+: a rewritten command can only be sent as an unsigned command
+			// packet, which has no last-seen field (separate root cause).
+			return "rewritten-signed-command-1.20.5+"
+		}
 		return "rewritten-command"
 	case "proxy-error":
 		return "command-error"
@@ -189,12 +194,20 @@ func c21Class(it c21Item) string {
 
 // c21Blame picks the first item in (from, to] (1-based item numbers) that may have
 // swallowed acknowledgements.
-func c21Blame(items []c21Item, from, to int) string {
+func c21Blame(items []c21Item, from, to int, protocol int) string {
+	// A 1.20.5+ rewritten signed command in the window always loses its offset
+	// (recorded known finding); every later arithmetic failure of the window
+	// follows from it, so it is blamed first to keep the key stable.
+	for k := from + 1; k <= to && k <= len(items); k++ {
+		if cl := c21Class(items[k-1], protocol); cl == "rewritten-signed-command-1.20.5+" {
+			return cl
+		}
+	}
 	for pass := 0; pass < 2; pass++ {
 		for k := from + 1; k <= to && k <= len(items); k++ {
-			cl := c21Class(items[k-1])
+			cl := c21Class(items[k-1], protocol)
 			switch cl {
-			case "rewritten-command", "command-error", "consumed-with-argument-signatures":
+			case "rewritten-command", "rewritten-signed-command-1.20.5+", "command-error", "consumed-with-argument-signatures":
 				return cl
 			case "consumed-command", "unsigned-command":
 				if pass == 1 {
@@ -446,9 +459,9 @@ func c21Run(c c21Case) verifkit.Result {
 	}
 	classes := map[string]bool{}
 	for _, it := range c.Items {
-		classes[c21Class(it)] = true
+		classes[c21Class(it, c.Protocol)] = true
 	}
-	for cl := range map[string]bool{"rewritten-command": true, "command-error": true, "consumed-with-argument-signatures": true, "consumed-command": true, "unsigned-command": true} {
+	for cl := range map[string]bool{"rewritten-command": true, "rewritten-signed-command-1.20.5+": true, "command-error": true, "consumed-with-argument-signatures": true, "consumed-command": true, "unsigned-command": true} {
 		if classes[cl] {
 			labels = append(labels, "has:"+cl)
 		}
@@ -526,7 +539,7 @@ func c21Run(c c21Case) verifkit.Result {
 	okItem := 0 // 1-based item up to which conservation was verified
 	flushCarried := false
 	lost := func(detectItem int, why string) verifkit.Result {
-		cl := c21Blame(c.Items, okItem, detectItem)
+		cl := c21Blame(c.Items, okItem, detectItem, c.Protocol)
 		return res(verifkit.Violationf("ack-lost:"+cl, "%s (window: client packets #%d..#%d; history %+v; backend %v)", why, okItem+1, detectItem, c.Items, c21Describe(B)))
 	}
 	for idx, e := range seq {
@@ -558,14 +571,14 @@ func c21Run(c c21Case) verifkit.Result {
 			}
 			okItem = k
 		} else if Ac[k]-Ab >= 40 {
-			if cl := c21Blame(c.Items, okItem, k); cl != "unattributed" && cl != "unsigned-command" && cl != "consumed-command" {
+			if cl := c21Blame(c.Items, okItem, k, c.Protocol); cl != "unattributed" && cl != "unsigned-command" && cl != "consumed-command" {
 				return lost(k, fmt.Sprintf("backend lags by %d at client packet #%d", Ac[k]-Ab, k))
 			}
 			return res(verifkit.Violationf("lag-40", "backend lags the client by %d acknowledgements at client packet #%d", Ac[k]-Ab, k))
 		}
 	}
 	if !kicked && Ac[n]-Ab >= 40 {
-		if cl := c21Blame(c.Items, okItem, n); cl != "unattributed" && cl != "unsigned-command" && cl != "consumed-command" {
+		if cl := c21Blame(c.Items, okItem, n, c.Protocol); cl != "unattributed" && cl != "unsigned-command" && cl != "consumed-command" {
 			return lost(n, fmt.Sprintf("backend lags by %d at the end", Ac[n]-Ab))
 		}
 		return res(verifkit.Violationf("lag-40", "backend lags the client by %d acknowledgements after the whole history", Ac[n]-Ab))
@@ -592,7 +605,7 @@ func c21Run(c c21Case) verifkit.Result {
 				return res(verifkit.Violationf("ack-exceeds", "after client packet #%d: backend %d > client %d", k, ab, Ac[k]))
 			}
 			if Ac[k]-ab >= 40 && !(kicked && k == n) {
-				if cl := c21Blame(c.Items, 0, k); cl != "unattributed" && cl != "unsigned-command" && cl != "consumed-command" {
+				if cl := c21Blame(c.Items, 0, k, c.Protocol); cl != "unattributed" && cl != "unsigned-command" && cl != "consumed-command" {
 					continue // reported (or not) by the conservation clause above with its own key
 				}
 				return res(verifkit.Violationf("lag-40", "after client packet #%d the backend lags by %d", k, Ac[k]-ab))
